@@ -29,6 +29,7 @@ type Spec struct {
 	CB      bool   `json:"cb,omitempty"`      // install evicted callback at construction
 	Reenter uint8  `json:"reenter,omitempty"` // callback re-entry: 0 none, 1 Get(k) (must not return the evicted value), 2 Count(), 3 both
 	Cleanup int64  `json:"cleanup,omitempty"` // cleanup interval handed to constructor (virtual clock: ticker never fires)
+	Native  bool   `json:"native,omitempty"`  // natively parallel use: no callback attribution (it is per virtual thread)
 }
 
 func (s Spec) IsCache() bool { return s.Kind == "cache" || s.Kind == "cacheof" }
@@ -460,10 +461,12 @@ func (a *cacheAd) mkCallback() cache.EvictedCallback {
 }
 
 func (a *cacheAd) Do(o *model.Op) (r model.Res) {
-	t := tid()
-	outer := a.ss.sinks[t]
-	a.ss.sinks[t] = &r
-	defer func() { a.ss.sinks[t] = outer }()
+	if !a.spec.Native {
+		t := tid()
+		outer := a.ss.sinks[t]
+		a.ss.sinks[t] = &r
+		defer func() { a.ss.sinks[t] = outer }()
+	}
 	k := a.kc.to(o.Key)
 	d := time.Duration(o.D)
 	c := a.c
@@ -642,10 +645,12 @@ func (a *cacheOfAd[K]) mkCallback() cache.EvictedCallbackOf[K, int] {
 }
 
 func (a *cacheOfAd[K]) Do(o *model.Op) (r model.Res) {
-	t := tid()
-	outer := a.ss.sinks[t]
-	a.ss.sinks[t] = &r
-	defer func() { a.ss.sinks[t] = outer }()
+	if !a.spec.Native {
+		t := tid()
+		outer := a.ss.sinks[t]
+		a.ss.sinks[t] = &r
+		defer func() { a.ss.sinks[t] = outer }()
+	}
 	k := a.kc.to(o.Key)
 	d := time.Duration(o.D)
 	c := a.c
